@@ -6,17 +6,23 @@ parser.ParseReader / parser.ParseFrugal) and by the Coq model (Gen/Grammar.v run
 interpreter with the transcribed actions, Judge/JParser.v); parse trees and error lists must
 agree exactly.  Direct oracle (no model): parse(render(model)) == canon(model) on the real
 parser, and the `-gen json` descriptor agrees with the model as an independent second view.
+Static: grammar.peg and the generated grammar.peg.go (what runs, and what Gen/Grammar.v is regenerated
+from) must describe the same parser (props/c10_pegsync.py); any difference is a violation.
 """
 import json
 import os
+import re
 import shutil
 
 import vlib
 from props import c10_gen as G
 from props import c10_fragment as F
+from props import c10_pegsync as S
 
 HARNESS_BINS = ["vh_c10"]
 NEEDS_FRUGAL = True
+
+ENUM_OVERFLOW = re.compile(r"^parser: enum (\S+): no value left for (\S+) after 9223372036854775807$")
 
 ERR_KINDS = [
     ("invalid encoding", 1), ("no match found", 2), ("parser: syntax error", 3),
@@ -64,6 +70,9 @@ def classify_err(e, rule_ids):
         kind = 11
     elif msg.startswith("parser: unknown value"):
         kind = 12
+    elif ENUM_OVERFLOW.match(msg):
+        m = ENUM_OVERFLOW.match(msg)
+        kind, payload = 14, (m.group(1) + " " + m.group(2)).encode()
     return [e.get("off", -1), rule_ids.get(e.get("rule", ""), -1), kind, payload]
 
 
@@ -105,6 +114,13 @@ def oracle_parse(case, resp):
         return "parser crashed or hung: %s" % (resp.get("panic") or resp.get("msg"))
     if case["kind"] == "malformed":
         return None      # any orderly answer is acceptable for arbitrary text
+    if case["kind"] == "enum_overflow":
+        # Thrift's previous + 1 does not exist in 64 bits: the only faithful answer is the Enum action's error
+        if resp.get("code") == 0:
+            return "an enum value without a number after 9223372036854775807 was accepted (and numbered)"
+        if not any(ENUM_OVERFLOW.match(e.get("msg", "")) for e in resp.get("errs", [])):
+            return "rejected, but not with the Enum action's error: %s" % resp.get("msg", "")[:300]
+        return None
     if resp.get("code") != 0:
         return "valid IDL rejected: %s" % resp.get("msg", "")[:300]
     got = G.from_json(resp["ast"])
@@ -404,17 +420,13 @@ def run_fragment(ctx, rng, n):
     rendered, parsed by the real parser; direct oracle = the declared model; the judge JParserFragment checks
     inside Coq that each description satisfies the theorem's hypotheses, that the theorem's rendering is the
     parsed text, and that the implementation returned the theorem's tree."""
-    descs, feats, hazard_ix = [], {}, set()
+    descs, feats = [], {}
     for i in range(n):
         g = F.FragGen(rng, size=1.0 if i % 5 else 2.0)
         d = g.file()
         descs.append((d, F.render(d)))
         for f in g.features:
             feats[f] = feats.get(f, 0) + 1
-    for i in range(2 if n < 200 else 6):
-        d = F.FragGen(rng).hazard_enum_overflow()
-        hazard_ix.add(len(descs))
-        descs.append((d, F.render(d)))
     resps = run_harness([{"op": "parse", "text": t.hex()} for _, t in descs])
     if len(resps) != len(descs):
         raise RuntimeError("harness answered %d of %d fragment requests" % (len(resps), len(descs)))
@@ -423,12 +435,10 @@ def run_fragment(ctx, rng, n):
         why = oracle_parse({"kind": "valid", "canon": G.canon(F.to_model(d))}, r)
         if why:
             failed.add(i)
-            hz = "enum_value_after_max_int64" if i in hazard_ix else None
             ctx.violation("C10 oracle (proved fragment): " + why,
-                          {"idl_text": t.decode("utf8", "backslashreplace"), "text_hex": t.hex(), "hazard": hz,
+                          {"idl_text": t.decode("utf8", "backslashreplace"), "text_hex": t.hex(),
                            "observed": {k: r.get(k) for k in ("code", "msg")},
-                           "theorem": "c10_enum_numbering_overflow_refuted" if hz else "c10_roundtrip_structs_partial"},
-                          signature={"hazard": hz} if hz else None)
+                           "theorem": "c10_roundtrip_structs_partial"})
     jcases = [[t, d["w0"], F.to_tok(d), r.get("code", 103), G.from_json(r["ast"]) if r.get("code") == 0 else []]
               for (d, t), r in zip(descs, resps)]
     verdicts = vlib.run_judge(ctx.rundir, "JParserFragment", "judge", jcases, shard=400000, name="jf")
@@ -437,7 +447,7 @@ def run_fragment(ctx, rng, n):
              -3: "generated description is outside the hypotheses of the theorem (generator fault)",
              -4: "the generator's text is not the theorem's rendering of the description (generator fault)"}
     for i, v in enumerate(verdicts):
-        if v < 0 and not (v == -1 and i in failed and i not in hazard_ix):
+        if v < 0 and not (v == -1 and i in failed):
             d, t = descs[i]
             ctx.violation("C10 proved fragment: " + why_v.get(v, "judge verdict %d" % v),
                           {"idl_text": t.decode("utf8", "backslashreplace"), "text_hex": t.hex(),
@@ -455,9 +465,7 @@ def run_fragment(ctx, rng, n):
         "cases": len(descs),
         "instances_accepted_by_judge": len([v for v in verdicts if v >= 0]),
         "judge_rejections": len([v for v in verdicts if v < 0]),
-        "oracle_failures": len(failed - hazard_ix),
-        "hazard_cases": len(hazard_ix),
-        "hazard_cases_failing_the_oracle_as_known": len(failed & hazard_ix),
+        "oracle_failures": len(failed),
         "kind_sets_seen": {str(k - 5000): c for k, c in sorted(tags.items()) if k >= 5000},
         "kind_set_legend": "bit set: 1 typedef, 2 enum, 4 struct/exception/union, 8 const, 16 service",
         "render_styles_exercised": dict(sorted(feats.items())),
@@ -472,6 +480,20 @@ def run(ctx, br):
     n_valid, n_hazard_each, n_bad, n_prog = (110, 2, 60, 12) if quick else (1300, 20, 700, 120)
     rules = run_harness([{"op": "rules"}])[0].get("rules", [])
     rule_ids = {n: i for i, n in enumerate(rules)}
+
+    # grammar.peg (the source a maintainer edits) and grammar.peg.go (generated from it; what runs and what the Coq
+    # grammar is regenerated from) are kept in step by hand: any disagreement is a violation
+    pdir = os.path.join(vlib.REPO, "compiler", "parser")
+    with open(os.path.join(pdir, "grammar.peg"), encoding="utf8") as f:
+        peg_text = f.read()
+    with open(os.path.join(pdir, "grammar.peg.go"), encoding="utf8") as f:
+        go_text = f.read()
+    sync_diffs = S.compare(peg_text, go_text)
+    for d in sync_diffs:
+        ctx.violation("C10 grammar.peg and grammar.peg.go disagree: " + d,
+                      {"files": ["compiler/parser/grammar.peg", "compiler/parser/grammar.peg.go"], "difference": d,
+                       "no_failing_input_found": True,
+                       "broken": "the generated parser is not what grammar.peg describes (tools/props/c10_pegsync.py)"})
 
     cases = []
     for i in range(n_valid):
@@ -488,6 +510,20 @@ def run(ctx, br):
             rd = G.Renderer(rng, hazard=hz, plain=hz != "newline_inside_declaration" and i % 2 == 0)
             text = rd.render(m)
             cases.append({"kind": "hazard", "text": text, "canon": G.canon(m), "features": rd.features, "hazard": hz})
+    # constructs the pinned grammar mishandled (repaired defects C10-F8a..e, F17..F20): targeted cases on top of
+    # the generator's own use of them; a failure is an ordinary violation
+    for hz in G.REPAIRED:
+        for i in range(n_hazard_each):
+            gen = G.Gen(rng)
+            m = G.hazard_model(gen, hz)
+            rd = G.Renderer(rng, hazard=hz, plain=i % 2 == 0)
+            text = rd.render(m)
+            cases.append({"kind": "repaired/" + hz, "text": text, "canon": G.canon(m), "features": rd.features,
+                          "hazard": None})
+    # a value without a number after the largest integer (repaired defect C10-F22): must be reported
+    for i in range(n_hazard_each):
+        d = F.FragGen(rng).enum_overflow()
+        cases.append({"kind": "enum_overflow", "text": F.render(d), "canon": None, "features": set(), "hazard": None})
     valid_texts = [c["text"] for c in cases if c["kind"] == "valid"]
     for i in range(n_bad):
         base = rng.choice(valid_texts) if valid_texts else b"struct S {}\n"
@@ -619,7 +655,8 @@ def run(ctx, br):
         "distinct_nontrivial": distinct,
         "rule": "seeded IDL models (all declaration kinds, annotations in every position, doc comments, containers, "
                 "constants incl. lists/maps/identifier references/doubles, includes across 1-4 files) rendered in random "
-                "lexical styles; hazard cases (one Thrift-valid construct the grammar mishandles each); mutated texts. "
+                "lexical styles; hazard cases (one Thrift-valid construct the grammar still mishandles each) and targeted "
+                "cases for every construct the pinned grammar mishandled (repaired); mutated texts. "
                 "non-trivial = accepted well-formed text with >= 1 declaration; distinct by text",
         "traces_validated_against_impl": len([v for v in verdicts if v >= 0]) + frag["instances_accepted_by_judge"],
         "proved_fragment": frag,
@@ -627,6 +664,9 @@ def run(ctx, br):
         "programs_validated_against_impl": len([v for v in pverdicts if v >= 0]),
         "program_branch_tags": {str(k): pverdicts.count(k) for k in sorted(set(pverdicts))},
         "oracle_failures": oracle_fail,
+        "grammar_peg_vs_generated_go": {"rules_compared": len(rules), "differences": len(sync_diffs),
+                                        "compared": "rule names and order, expression trees, literals, character classes, "
+                                                    "action names, action code, initial code block"},
         "program_oracle_failures": prog_fail,
         "json_descriptor_checked": n_json,
         "json_descriptor_failures": json_fail,
